@@ -147,3 +147,241 @@ def c07(tier):
                      "old tokens are lexer::lex(old text); C06 ties those to the specification"]
     c.exhaustive = True
     c.finish()
+
+
+# ---------------------------------------------------------------------------
+# server-level helpers
+
+def _srv(mode, cases, name, exe, extra=None, timeout=3600):
+    res = os.path.join(vlib.OUT, name + ".result.json")
+    vlib.run_harness("srv", [mode, cases, res, "exe=" + exe, "seed=%d" % vlib.seed(), "max_fail=60"] + (extra or []), timeout=timeout)
+    return _tag_mode(vlib.harness_result(res), "srv:" + mode)
+
+
+def _trace_cfg(trace_path, name, diagcap=True):
+    uris = set()
+    with open(trace_path) as f:
+        for line in f:
+            e = json.loads(line)
+            if e.get("uri"):
+                uris.add(e["uri"])
+    if not uris:
+        uris.add("file:/none")
+    with open(os.path.join(vlib.SPEC, "TraceServer.cfg")) as f:
+        cfg = f.read()
+    cfg = cfg.replace("URIs <- TraceURIs", "URIs = {%s}" % ", ".join('"%s"' % u for u in sorted(uris)))
+    cfg = cfg.replace("DiagCap = TRUE", "DiagCap = %s" % ("TRUE" if diagcap else "FALSE"))
+    cfg_name = "TraceServer_%s.cfg" % name
+    with open(os.path.join(vlib.SPEC, cfg_name), "w") as f:
+        f.write(cfg)
+    return cfg_name
+
+
+def _tlc_trace(trace_path, name, diagcap):
+    cfg_name = _trace_cfg(trace_path, name, diagcap)
+    try:
+        res = vlib.tlc("TraceServer", cfg_name, "trace_" + name, workers=1, env_extra={"TRACE": trace_path}, expect_fail=True,
+                       coverage=False, timeout=1800, dfs=True, heap="4g")
+    finally:
+        try:
+            os.remove(os.path.join(vlib.SPEC, cfg_name))
+        except OSError:
+            pass
+    rejected = None
+    if not res["ok"]:
+        with open(res["out"], errors="replace") as f:
+            for line in f:
+                if "REJECTED" in line:
+                    rejected = line.strip()
+        if rejected is None:
+            raise ToolError("TraceServer failed without a rejection: %s (see %s)" % (res["errors"][:2], res["out"]))
+    return res, rejected
+
+
+def validate_server_trace(c, trace_path, name, diagcap=True, label="TraceServer"):
+    """Validate a merged multi-session trace; on rejection bisect to the first rejected session."""
+    with open(trace_path) as f:
+        lines = f.read().splitlines()
+    sessions, cur = [], []
+    nreset = 0
+    for l in lines:
+        cur.append(l)
+        if '"ev":"reset"' in l:
+            nreset += 1
+            if nreset == 4:
+                sessions.append(cur)
+                cur, nreset = [], 0
+    res, rejected = _tlc_trace(trace_path, name, diagcap)
+    c.add_tlc(res, label)
+    if rejected is None:
+        c.traces += len(sessions)
+        c.parts.append({"part": label, "sessions_validated": len(sessions), "events": len(lines)})
+        return True
+    # find the first rejected session by bisection over prefixes
+    lo, hi = 0, len(sessions)          # invariant: prefix of lo sessions accepted, prefix of hi rejected
+    tmp = os.path.join(vlib.OUT, "trace_bisect_%s.ndjson" % name)
+    while hi - lo > 1:
+        mid = (lo + hi) // 2
+        with open(tmp, "w") as f:
+            f.write("\n".join(l for s in sessions[lo:mid] for l in s) + "\n")
+        _, rej = _tlc_trace(tmp, name + "_bisect", diagcap)
+        if rej is None:
+            lo = mid
+        else:
+            hi = mid
+    bad = sessions[lo] if sessions else lines
+    with open(tmp, "w") as f:
+        f.write("\n".join(bad) + "\n")
+    _, rej = _tlc_trace(tmp, name + "_bisect", diagcap)
+    events = [json.loads(l) for l in bad]
+    c.failures.append({"what": "trace-rejected", "site": "", "mode": "trace", "part": label,
+                       "detail": {"why": rej or rejected, "session_index": lo, "events": len(events),
+                                  "sent": [e for e in events if e["task"] == "D" and e["ev"] == "send"][:12]},
+                       "case": {"events": events}})
+    c.nfail_total += 1
+    return False
+
+
+def _refute(c, module, cfg, what):
+    """Design check with teeth: TLC must refute a named deviation of the code."""
+    res = vlib.tlc(module, cfg, "refute_" + cfg.replace(".cfg", ""), expect_fail=True, coverage=False, timeout=900)
+    if res["ok"]:
+        raise ToolError("vacuity: TLC did not refute %s (%s)" % (what, cfg))
+    c.parts.append({"part": "design-check", "refuted_by_TLC": what, "cfg": cfg})
+
+
+# ---------------------------------------------------------------------------
+# C18  lifecycle conformance and clean termination
+
+def c18(tier):
+    c = Check("C18", tier)
+    c.rule = ("TLC model-checks LspServer (reader phase machine, bounded channels, broker, responder; all interleavings) against the "
+              "sequential semantics ExpStep; MC_LspScripts enumerates ALL client message sequences up to K over "
+              "{initialize, initialized, supported request, unknown request (numeric and string id), didOpen, unknown notification, "
+              "shutdown, exit} with predicted responses and exit status; each is run against the real binary followed by end of input "
+              "(= every frame-boundary cut); short sessions are additionally cut at every byte. Non-trivial: >= 2 messages.")
+    vlib.build_harness()
+    exe = vlib.build_server(False)
+    exe_v = vlib.build_server(True)
+    res = vlib.tlc("MC_LspServer", "MC_LspServer_life.cfg", "c18_life", timeout=1800)
+    vlib.require_coverage(res, ["ClientSend", "ClientClose", "ReaderStep", "ReaderEof", "BrokerStep", "ReaderRespond",
+                                "ResponderWrite", "ProcessEnd"])
+    c.add_tlc(res, "MC_LspServer_life")
+    _refute(c, "MC_LspServer", "MC_LspServer_abrupt.cfg", "AbruptExit (process::exit while responses are queued)")
+    if tier == "thorough":
+        res = vlib.tlc("MC_LspServer", "MC_LspServer_live.cfg", "c18_live", timeout=3000, coverage=False)
+        c.add_tlc(res, "MC_LspServer_live (liveness under fairness)")
+    cfg = "MC_LspScripts_life4.cfg" if tier == "quick" else "MC_LspScripts_life5.cfg"
+    res = vlib.tlc("MC_LspScripts", cfg, "c18_scripts", timeout=1800)
+    vlib.require_coverage(res, ["GNext"])
+    c.add_tlc(res, cfg)
+    r = _srv("script", res["out"], "c18_scripts", exe, ["chunk=msg", "cuts=%d" % (2 if tier == "quick" else 3)])
+    if r["cases"] != res["distinct"]:
+        raise ToolError("binding: replayed %d scripts, TLC enumerated %d" % (r["cases"], res["distinct"]))
+    c.add_harness(r, "scripts(plain binary)")
+    # the same scripts as one burst against the hooked binary, traces validated by TraceServer
+    stride = 9 if tier == "quick" else 3
+    noS = os.path.join(vlib.OUT, "c18_scripts_nosunk.out")
+    with open(res["out"], "rb") as fi, open(noS, "wb") as fo:
+        for i, line in enumerate(l for l in fi if l.startswith(b'<<"SCRIPT"') and b"sunk" not in l):
+            if i % stride == 0:
+                fo.write(line)
+    trace = os.path.join(vlib.OUT, "c18_trace.ndjson")
+    r = _srv("trace", noS, "c18_trace", exe_v, ["trace_out=" + trace])
+    c.parts.append({"part": "trace-recording", "sessions": r["cases"], "events": r["counters"].get("events", 0)})
+    validate_server_trace(c, trace, "c18", True, "TraceServer(lifecycle sessions)")
+    for p in (res["out"], noS, trace):
+        try:
+            os.remove(p)
+        except OSError:
+            pass
+    c.assumptions = ["end of input without `exit`: exit status unconstrained, only termination within 15 s and no crash",
+                     "between initialize's answer and `initialized`, a second initialize may be rejected with either code",
+                     "sessions of the hooked binary are recorded with all messages in one burst"]
+    c.exhaustive = True
+    c.finish()
+
+
+# ---------------------------------------------------------------------------
+# C19  framing independent of chunking
+
+def c19(tier):
+    c = Check("C19", tier)
+    c.rule = ("TLC explores LspFraming: every chunking of every stream of 1-3 frames (bodies with multi-byte characters, one- and "
+              "two-digit lengths) through the decoder model (guard, partial header, body wait, advance) and refutes the "
+              "'length in characters' encoder. Conformance: document sessions with non-ASCII text generated from LspProtocol are run "
+              "against the real binary under every two-way split of their byte stream, 7-byte writes, one burst and random multi-way "
+              "splits with delays; each must yield the predicted outputs and the same streams as the first segmentation. Every frame "
+              "the server emits is parsed by an independent frame reader.")
+    vlib.build_harness()
+    exe_v = vlib.build_server(True)
+    res = vlib.tlc("MC_LspFraming", "MC_LspFraming.cfg", "c19_framing", timeout=1800)
+    vlib.require_coverage(res, ["Deliver", "Eof"])
+    c.add_tlc(res, "MC_LspFraming")
+    _refute(c, "MC_LspFraming", "MC_LspFraming_chars.cfg", "CountChars (Content-Length in characters)")
+    res = vlib.tlc("MC_LspScripts", "MC_LspScripts_docs3.cfg", "c19_scripts", timeout=1800)
+    c.add_tlc(res, "MC_LspScripts_docs3")
+    n = res["distinct"]
+    st = max(1, n // (12 if tier == "quick" else 120))
+    r = _srv("script", res["out"], "c19_split2", exe_v, ["verif=1", "chunk=split2", "stride=%d" % st, "offset=%d" % (vlib.seed() % st)])
+    c.add_harness(r, "all two-way splits")
+    st = max(1, n // (150 if tier == "quick" else 1500))
+    r = _srv("script", res["out"], "c19_rand", exe_v, ["verif=1", "chunk=rand", "stride=%d" % st, "offset=%d" % (vlib.seed() % st)])
+    c.add_harness(r, "random multi-way splits with delays")
+    st = max(1, n // (300 if tier == "quick" else 3616))
+    r = _srv("script", res["out"], "c19_bytes7", exe_v, ["verif=1", "chunk=bytes7", "stride=%d" % st])
+    c.add_harness(r, "7-byte writes")
+    r = _srv("script", res["out"], "c19_one", exe_v, ["verif=1", "chunk=one"])
+    c.add_harness(r, "one burst")
+    os.remove(res["out"])
+    c.assumptions = ["byte streams are complete LSP sessions generated from LspProtocol; header is `Content-Length` only"]
+    c.exhaustive = True
+    c.finish()
+
+
+# ---------------------------------------------------------------------------
+# C20  ordering, read-your-writes, isolation under load
+
+def c20(tier):
+    c = Check("C20", tier)
+    c.rule = ("TLC model-checks LspServer over 3 URIs (two differing only in scheme) with channel capacities 1-2, with and without the "
+              "diagnostics capability, for all scripts up to 4-5 messages and all interleavings: OutputIsSequentialSemantics, "
+              "StrictIsolation, LastDiagnosticsAreFinal, NoDiagnosticsWithoutCapability; it refutes path-only document keys. "
+              "All scripts up to 3 messages and simulated scripts of 300 messages are pipelined in one burst into the hooked binary and "
+              "every response (read-your-writes via $/verif/text), per-URI diagnostics stream and last diagnostics are compared; "
+              "recorded traces of the three tasks are validated by TraceServer.")
+    vlib.build_harness()
+    exe_v = vlib.build_server(True)
+    acts = ["ClientSend", "ReaderStep", "BrokerStep", "ReaderRespond", "ResponderWrite"]
+    for cfg in (["MC_LspServer_docs", "MC_LspServer_nodiag"] if tier == "quick" else ["MC_LspServer_docs", "MC_LspServer_nodiag", "MC_LspServer_docs5"]):
+        res = vlib.tlc("MC_LspServer", cfg + ".cfg", "c20_" + cfg, timeout=3000, heap="16g")
+        vlib.require_coverage(res, acts)
+        c.add_tlc(res, cfg)
+    _refute(c, "MC_LspServer", "MC_LspServer_pathonly.cfg", "PathOnly (documents keyed by uri.path())")
+    res = vlib.tlc("MC_LspScripts", "MC_LspScripts_docs3.cfg", "c20_scripts", timeout=1800)
+    c.add_tlc(res, "MC_LspScripts_docs3")
+    r = _srv("script", res["out"], "c20_docs3", exe_v, ["verif=1", "chunk=one"])
+    if r["cases"] != res["distinct"]:
+        raise ToolError("binding: replayed %d scripts, TLC enumerated %d" % (r["cases"], res["distinct"]))
+    c.add_harness(r, "all scripts <= 3 messages, one burst")
+    trace = os.path.join(vlib.OUT, "c20_trace.ndjson")
+    r = _srv("trace", res["out"], "c20_trace", exe_v, ["trace_out=" + trace, "stride=%d" % (6 if tier == "quick" else 1)])
+    validate_server_trace(c, trace, "c20", True, "TraceServer(document sessions)")
+    os.remove(res["out"])
+    # load: long pipelined scripts
+    procs, num = (4, 2) if tier == "quick" else (16, 12)
+    for cfg, diag in (("Sim_LspScripts_load.cfg", True), ("Sim_LspScripts_load_nodiag.cfg", False)):
+        res = vlib.tlc_sim_multi("MC_LspScripts", cfg, "c20_" + cfg.replace(".cfg", ""), procs, num, 301)
+        c.add_tlc(res, cfg)
+        r = _srv("script", res["out"], "c20_load_%s" % diag, exe_v, ["verif=1", "chunk=one"])
+        c.add_harness(r, "pipelined 300-message scripts, diagcap=%s" % diag)
+        tr = os.path.join(vlib.OUT, "c20_trace_load_%s.ndjson" % diag)
+        r = _srv("trace", res["out"], "c20_trace_load_%s" % diag, exe_v, ["trace_out=" + tr, "stride=%d" % (12 if tier == "quick" else 4)])
+        validate_server_trace(c, tr, "c20load", diag, "TraceServer(load, diagcap=%s)" % diag)
+        os.remove(res["out"])
+        os.remove(tr)
+    os.remove(trace)
+    c.assumptions = ["OS-level scheduling is sampled, not enumerated; interleavings are enumerated on the model and tied to the code by trace validation",
+                     "relative order of broker-independent responses and diagnostics is not constrained (benign race, modelled)"]
+    c.exhaustive = True
+    c.finish()
